@@ -37,6 +37,8 @@ FORMULAS = {
     'self_ref': '=A1+1', 'diag_range': '=B1:C2', 'cross_sheet_range': "=SUM(B1:{T}!B2)", 'column_noarg': '=COLUMN()+COLUMN(C1)',
     'count_mixed': '=COUNT(B1:B2,1,"2",B1)', 'index_multi': '=INDEX((B1:B2,C1:C2),1,1,2)', 'sumif_cell': '=SUMIF(B1,">0")',
     'address5': '=ADDRESS(1,2,4,TRUE,"S")', 'text_fn': '=TEXT(B1,"0.00")', 'neg_pct_chain': '=-B1%+2%',
+    'row_zero': '=A0+1', 'abs_row_zero': '=$B$0', 'range_row_zero': '=SUM(A0:A2)', 'col_4letters': '=ZZZZ1+1', 'wholecol_4letters': '=SUM(AAAA:AAAA)',
+    'col_beyond_xfd': '=XFE1+1', 'row_huge': '=A99999999+1', 'brackets8': '=((((((((B1))))))))+1',
 }
 
 
@@ -237,10 +239,11 @@ def nesting(run):
         if fid == 'C06-F1':
             w = f['witness']
             jobs.append((w['nest'], w['depth'], w['text']))
+            jobs.append(('PAREN', 20, '=' + '(' * 20 + '1' + ')' * 20))       # plain brackets double the time per level: same finding
     res = core.pmap(_nest_job, jobs, chunksize=1)
     for (kind, d, text), (o, det, secs) in zip(jobs, res):
         case = {'in': {'text': text, 'nest': kind, 'depth': d}, 'obs': {'outcome': o, 'detail': det, 'seconds': secs}, 'kind': 'nesting'}
-        guard = kind in ('SUM', 'IF') and d >= 7
+        guard = (kind in ('SUM', 'IF') and d >= 7) or (kind == 'PAREN' and d >= 15)
         run.judge(case, o in ('ok', 'lib'), devs=['C06-F1'] if (o == 'timeout' and guard) else [],
                   clause=f"depth-{d} {kind} nest: outcome '{o}' after {secs}s", part='nesting')
 
@@ -288,7 +291,7 @@ def replay(run, case):
         run.judge(dict(case, obs={'outcome': o, 'detail': det}), o in case['ideal'], clause=f"outcome class '{o}' ({det}); admissible: {case['ideal']}")
     elif k == 'nesting':
         o, det, secs = _nest_job((case['in']['nest'], case['in']['depth'], case['in']['text']))
-        guard = case['in']['nest'] in ('SUM', 'IF') and case['in']['depth'] >= 7
+        guard = (case['in']['nest'] in ('SUM', 'IF') and case['in']['depth'] >= 7) or (case['in']['nest'] == 'PAREN' and case['in']['depth'] >= 15)
         run.judge(dict(case, obs={'outcome': o, 'seconds': secs}), o in ('ok', 'lib'), devs=['C06-F1'] if (o == 'timeout' and guard) else [], clause=f"outcome '{o}' after {secs}s")
     else:
         text = case['in']['text']
